@@ -607,7 +607,7 @@ def gen_conformant(rng, desc, ty, depth, nullable=True):
     if nullable and rng.random() < 0.15:
         return ['none']
     if ty[0] == 'leaf':
-        v = gen_leaf_value(rng, ty[1], True)
+        v = gen_leaf_value(rng, ty[1], True, 300)
         return v if v is not None else ['none']
     if ty[0] == 'arr':
         n = 0 if depth <= 0 else rng.choice([0, 1, 2, 3])
@@ -655,15 +655,25 @@ def gen_field(rng, desc, f, depth):
         for _ in range(n):
             x = gen_conformant(rng, desc, ty, depth, f['nillable'])
             if x == ['none'] and not f['nillable']:
-                return ['none'] if f['min'] <= 0 else ['list', out]
+                if len(out) >= f['min']:
+                    break
+                raise GenSkip('no conformant value found for a required member')
             out.append(x)
+        if not out and f['min'] <= 0 and rng.random() < 0.5:
+            return ['none']
         return ['list', out]
     if shallow and ty[0] == 'ref' and can_be_none(f):
         return ['none']
     if can_be_none(f) and rng.random() < 0.25:
         return ['none']
     v = gen_conformant(rng, desc, ty, depth, False)
+    if v == ['none'] and not can_be_none(f):
+        raise GenSkip('no conformant value found for a required member')
     return v
+
+
+class GenSkip(Exception):
+    pass
 
 
 def norm_json(v):
